@@ -1,6 +1,7 @@
 // Conformance driver for spec/rangeglob (C18): a dumb executor of text commands
 // against the real votca code:
-//   tools::wildcmp (both overloads), csg::BeadList::Generate, tools::Property::Select,
+//   tools::wildcmp (both overloads), csg::BeadList::Generate / GenerateInSphericalSubvolume,
+//   csg::imcio_write_index / imcio_read_index, tools::Property::Select,
 //   tools::RangeParser (Parse, iteration, operator<<), xtp::IndexParser.
 // tokenizer.cc, rangeparser.cc and IndexParser.cc are compiled into this executable
 // with assertions and ASan/UBSan on (see rangeglob.cmake); the const char* overload of
@@ -18,6 +19,7 @@
 #include <vector>
 
 #include <votca/csg/beadlist.h>
+#include <votca/csg/imcio.h>
 #include <votca/csg/topology.h>
 #include <votca/tools/property.h>
 #include <votca/tools/rangeparser.h>
@@ -100,6 +102,55 @@ int main() {
         for (const auto &b : bl) std::cout << " " << b->getId();
         std::cout << std::endl;
         std::cout << "count " << n << " " << bl.size() << std::endl;
+      } else if (cmd == "beadsph") {
+        // beadsph =<select> <L> <rx> <ry> <rz> <radius> then per bead: =<type> =<name> <x> <y> <z>
+        std::string t, u;
+        in >> t;
+        std::string select = Tok(t);
+        double L, radius;
+        Eigen::Vector3d ref;
+        in >> L >> ref[0] >> ref[1] >> ref[2] >> radius;
+        csg::Topology top;
+        top.setBox(L * Eigen::Matrix3d::Identity());
+        double x, y, z;
+        while (in >> t >> u >> x >> y >> z) {
+          std::string type = Tok(t), name = Tok(u);
+          if (!top.BeadTypeExist(type)) top.RegisterBeadType(type);
+          csg::Bead *b = top.CreateBead(csg::Bead::spherical, name, type, 0, 1.0, 0.0);
+          b->setPos(Eigen::Vector3d(x, y, z));
+        }
+        csg::BeadList bl;
+        Index n = bl.GenerateInSphericalSubvolume(top, select, ref, radius);
+        std::cout << "sel";
+        for (const auto &b : bl) std::cout << " " << b->getId();
+        std::cout << std::endl;
+        std::cout << "count " << n << " " << bl.size() << std::endl;
+      } else if (cmd == "imcwrite") {
+        // imcwrite <file> <name> <expression without blanks> ...  : Parse each, imcio_write_index
+        std::string file, name, expr;
+        in >> file;
+        std::vector<std::pair<std::string, tools::RangeParser>> ranges;
+        while (in >> name >> expr) {
+          tools::RangeParser rp;
+          rp.Parse(expr);
+          ranges.push_back(std::make_pair(name, rp));
+        }
+        csg::imcio_write_index(file, ranges);
+        std::cout << "ok " << ranges.size() << std::endl;
+      } else if (cmd == "imcread") {
+        // imcread <budget> <file> : imcio_read_index, then every entry iterated to the end
+        long budget;
+        std::string file;
+        in >> budget >> file;
+        auto ranges = csg::imcio_read_index(file);
+        std::cout << "entries " << ranges.size() << std::endl;
+        for (auto &r : ranges) {
+          std::vector<Index> out;
+          bool done = Iterate(r.second, budget, out);
+          std::cout << "entry " << r.first << (done ? " seq" : " nonterm");
+          for (size_t i = 0; i < out.size() && (done || i < 12); ++i) std::cout << " " << out[i];
+          std::cout << std::endl;
+        }
       } else if (cmd == "propsel") {
         // propsel =<filter> C=<child> G=<grandchild> ... ; node values are their paths
         std::string t;
